@@ -660,6 +660,45 @@ def judge_walk_histories(rec, pname, P):
                                                            f"instance targets (got, fresh) {diff}", case=case, pdk=pname, history=history)
 
 
+def judge_bare_calls(rec, pname, P):
+    """A call of a generic primitive given to compile directly (the form the PDK read-mes show), alone and in a list: there is no
+    Module to modify in place, so the device call must come back as the result."""
+    import hdl21 as h
+    import hdl21.pdk as hp
+    from hdl21.primitives import Mos, MosType
+
+    try:
+        top, leaf = make_design(Mos, {"tp": MosType.NMOS}, f"{pname}:bare")
+        P["compile"](top)
+        want = leaf.instances["x"].of.module.name
+    except Exception:
+        return
+    for form in ("single", "list", "list-with-module", "hdl21.pdk.compile"):
+        rec.count("bare-call.checked")
+        case = {"kind": "bare-call", "pdk": pname, "form": form}
+        rec.case(key=f"bare:{pname}:{form}", nontrivial=True, sample=case)
+        call = Mos(tp=MosType.NMOS)
+        try:
+            if form == "single":
+                got = P["compile"](call)
+            elif form == "list":
+                got = P["compile"]([call])
+                got = got[0] if isinstance(got, list) and got else got
+            elif form == "list-with-module":
+                t2, _ = make_design(Mos, {"tp": MosType.NMOS}, f"{pname}:bare2")
+                got = P["compile"]([t2, call])
+                got = got[1] if isinstance(got, list) and len(got) == 2 else got
+            else:
+                got = hp.compile(call, pdk=P["regmod"])
+        except Exception as e:
+            rec.violation(f"compile-raises:{type(e).__name__}", f"[{pname}] compile of a bare primitive call ({form}) raised {type(e).__name__}: {str(e)[:100]}", case=case, pdk=pname)
+            continue
+        name = getattr(getattr(got, "module", None), "name", None)
+        if not isinstance(got, h.ExternalModuleCall) or name != want:
+            rec.violation("mapped-primitive-not-replaced", f"[{pname}] compile of a bare Mos call ({form}) returned {str(got)[:80]!r}; inside a module the same call compiles to {want}",
+                          case=case, pdk=pname, history=form)
+
+
 def logic_cells():
     out = []
     for pk, mods in (("sky130_hdl21.digital_cells", ("high_density", "high_speed", "low_leakage", "low_power", "low_speed", "medium_speed")),
@@ -726,6 +765,7 @@ def run(ctx, rec):
         elif w[0] == "same-named":
             judge_same_named(rec, w[1], allp[w[1]])
             judge_walk_histories(rec, w[1], allp[w[1]])
+            judge_bare_calls(rec, w[1], allp[w[1]])
         else:
             judge_triples(rec, w[1], allp[w[1]])
     if ctx.shard == 0:
@@ -757,6 +797,8 @@ def replay(ctx, rec, case):
         judge_triples(rec, case["pdk"], allp[case["pdk"]])
     elif case.get("kind") == "compile-form":
         judge_compile_forms(rec, allp)
+    elif case.get("kind") == "bare-call":
+        judge_bare_calls(rec, case["pdk"], allp[case["pdk"]])
     elif case.get("kind") == "walk-history":
         judge_walk_histories(rec, case["pdk"], allp[case["pdk"]])
     else:
